@@ -41,6 +41,11 @@ ERRS = {
     "start-flow-bad-arg": "start vhelper2 1/0",
     "umim-param-wrong-type": "start UtteranceBotAction(script=5)",
     "if-bad-cond": "if 1/0 > 0\n{ind}  $z = 1",
+    # invalid patterns that make the interpreter raise plain Python exceptions (AttributeError, AssertionError, KeyError), not its own error classes
+    "flowref-unimplemented-member": "start vhelper2 1 as $fr\n{ind}match $fr.Paused()",
+    "flowref-unknown-member": "start vhelper2 1 as $fr\n{ind}match $fr.Foo()",
+    "actionref-unknown-member": "start OutXAction(x=1) as $ar\n{ind}match $ar.Foo()",
+    "send-flowref-unimplemented-member": "start vhelper2 1 as $fr\n{ind}send $fr.Resumed()",
     # the faulty element belongs to a compound statement that is the FIRST statement of its flow (nothing before it in that flow)
     "callee-leading-if-cond": 'await vcallee cond "12"',
     "callee-leading-if-body": "await vcallee body 1",
@@ -311,6 +316,11 @@ def cases(tier, seed):
     for kind in sorted(ERRS):
         i += 1
         yield {"id": i, "fam": "iso-repeat", "kind": kind}
+    # long runs: healthy activated flows that act BEFORE their first wait and keep losing action conflicts to each other, next
+    # to a faulty activated flow that fails (after it was armed) before its first wait on every restart
+    for k in range(40 if tier == "quick" else 400):
+        i += 1
+        yield {"id": i, "fam": "longrun", "seed": base + k}
     nv = 14 if tier == "quick" else 150
     for k in range(nv):
         rng = random.Random(base + k)
@@ -607,7 +617,60 @@ def run_iso(case):
     return dict(res, verdict="held", observed=obs)
 
 
+STORM_FAULTS = ["$x = 1/0", "$x = foo(1)", 'send OutX(x=$nothing.y)', "start UtteranceBotAction(script=5)", "$x = \"a\" + 1"]
+
+
+def run_longrun(case):
+    """oracle: EVERY Go() event makes each healthy activated flow act exactly once (it finishes, restarts, and the restart acts
+    before its first wait - whoever loses the action conflict is restarted once more), for as many events as are fed;
+    the faulty flow's errors are reported; processing terminates"""
+    from . import steps, v2h
+
+    L = v2h.load()
+    rng = random.Random(case["seed"])
+    n_healthy = rng.choice([2, 2, 3])
+    with_bad = rng.random() < 0.7
+    n_events = rng.randint(14, 40)
+    names = "abc"[:n_healthy]
+    src = "".join("flow h%s\n  send Out%s()\n  match Go()\n\n" % (c, c.upper()) for c in names)
+    if with_bad:
+        src += "flow bad\n  global $armed\n  if $armed\n    %s\n  match Go()\n  $armed = True\n\n" % rng.choice(STORM_FAULTS)
+    src += "@loop(\"ew\")\nflow errwatch\n  match ColangError() as $e\n  send SawError()\n\n"
+    src += "flow main\n  global $armed\n  $armed = False\n" + "".join("  activate h%s\n" % c for c in names) + ("  activate bad\n" if with_bad else "") + "  activate errwatch\n  match Never()\n"
+    L["random"].reset(seed=case["seed"])
+    L["clock"].reset()
+    base = {"key": repr((src, n_events)), "nontrivial": True, "fam": "longrun", "sample": {"program": src, "events": n_events}}
+    obs = {"longrun_cases": 1, "longrun_events": 0, "longrun_errors_reported": 0}
+    want = sorted("Out" + c.upper() for c in names)
+    try:
+        st = v2h.mk(src)
+        first = sorted(t for t in v2h.types(st.outgoing_events) if t.startswith("Out"))
+        if first != want:
+            return dict(base, verdict="violated", observed=obs, mech="healthy-activated-flow-did-not-act", witness={"program": src, "at_event": 0, "expected": want, "got": first})
+        for k in range(n_events):
+            out = v2h.run(st, {"type": "Go"})
+            obs["longrun_events"] += 1
+            ty = v2h.types(out)
+            obs["longrun_errors_reported"] += ty.count("SawError")
+            got = sorted(t for t in ty if t.startswith("Out"))
+            if got != want:
+                return dict(base, verdict="violated", observed=obs, mech="healthy-activated-flow-did-not-act", witness={"program": src, "at_event": k + 1, "expected": want, "got": got})
+            if with_bad and k == 0 and "SawError" not in ty:
+                # the first Go() arms the faulty flow; its restarted instances fail at once (the interpreter gives the flow up
+                # after a number of such failures in a row - afterwards it is gone and reports nothing more)
+                return dict(base, verdict="violated", observed=obs, mech="failure-not-reported", witness={"program": src, "at_event": k + 1, "outputs": ty})
+    except v2h.LoaderReject as e:
+        return dict(base, verdict="inconclusive", reason="loader-reject", detail=str(e)[:300], nontrivial=False)
+    except steps.StepBudgetExceeded as e:
+        return dict(base, verdict="violated", observed=obs, mech="step-budget-exceeded", witness={"program": src, "at_event": obs["longrun_events"], "detail": str(e)})
+    except Exception as e:
+        return dict(base, verdict="violated", observed=obs, mech="exception-escaped:%s" % type(e).__name__, witness={"program": src, "at_event": obs["longrun_events"], "detail": str(e)[:300]})
+    return dict(base, verdict="held", observed=obs)
+
+
 def run_case(case):
+    if case["fam"] == "longrun":
+        return run_longrun(case)
     if case["fam"] == "term":
         return run_term(case)
     if case["fam"] == "apiterm":
@@ -620,6 +683,8 @@ def run_case(case):
 def classify(r):
     if r.get("fam") == "apiterm":
         return "api-termination:%s" % r.get("mech")
+    if r.get("fam") == "longrun":
+        return "longrun:%s" % r.get("mech")
     if r.get("fam") == "iso-repeat":
         return "repeated-failure:%s:%s" % (r.get("kind"), r.get("mech"))
     if r.get("fam") == "term":
